@@ -531,3 +531,181 @@ def refute_by_point(diffs, hyps, tries=60, seed=0):
         except (ZeroDivisionError, NFError):
             continue
     return None
+
+
+def refute_numeric(goal, hyps, tries=200, seed=0, margin=1e-25):
+    """counter-model search with the TRUE elementary functions in 40-digit arithmetic (sqrt, exp, log, pow, sin, cos, gamma ...): a point where all
+    hypotheses hold with margin and the goal fails with margin.  Used only after the exact back ends could not decide; the witness is numerical
+    (40 digits, margin 1e-25 relative), so the verdict says so and the native replay has the last word."""
+    import random
+    import mpmath as mp
+    from .xcheck import numeval
+    mp.mp.dps = 40
+    rnd = random.Random(seed)
+    goal = T.as_bool(goal)
+    hy = [T.as_bool(h) for h in hyps]
+    syms = set()
+    for e in [goal] + hy:
+        if isinstance(e, sp.Basic):
+            syms |= e.free_symbols
+    syms.discard(T.PI)
+    syms = sorted(syms, key=str)
+
+    def holds(c, pt, want):
+        """is c == want at pt, with margin?  None when too close to call"""
+        if c is sp.true:
+            return want is True
+        if c is sp.false:
+            return want is False
+        if isinstance(c, sp.And):
+            rs = [holds(a, pt, True) for a in c.args]
+            if want:
+                return None if any(r is None for r in rs) else all(rs)
+            rs2 = [holds(a, pt, False) for a in c.args]
+            return True if any(r is True for r in rs2) else (None if any(r is None for r in rs2) else False)
+        if isinstance(c, sp.Or):
+            rs = [holds(a, pt, True) for a in c.args]
+            if want:
+                return True if any(r is True for r in rs) else (None if any(r is None for r in rs) else False)
+            rs2 = [holds(a, pt, False) for a in c.args]
+            return None if any(r is None for r in rs2) else all(rs2)
+        if isinstance(c, sp.Not):
+            return holds(c.args[0], pt, not want)
+        if not isinstance(c, (sp.Eq, sp.Ne, sp.Lt, sp.Le, sp.Gt, sp.Ge)):
+            return None
+        l_, r_ = numeval(c.lhs, pt), numeval(c.rhs, pt)
+        d = l_ - r_
+        scale = max(abs(l_), abs(r_), mp.mpf(1))
+        if abs(d) <= margin * scale:
+            if isinstance(c, sp.Eq):
+                return None          # numerically equal: cannot certify either way
+            return None
+        truth = {sp.Eq: False, sp.Ne: True, sp.Lt: d < 0, sp.Le: d < 0, sp.Gt: d > 0, sp.Ge: d > 0}[type(c)]
+        return truth == want
+    # simple bounds  sym (>=|>|<=|<) const  from the hypotheses steer the sampler (log-uniform inside the box)
+    lo, hi = {}, {}
+    for h in hy:
+        if isinstance(h, (sp.Ge, sp.Gt, sp.Le, sp.Lt)):
+            a_, b_ = h.lhs, h.rhs
+            if isinstance(a_, sp.Symbol) and b_.is_number:
+                (lo if isinstance(h, (sp.Ge, sp.Gt)) else hi).setdefault(a_, []).append(mp.mpf(sp.N(b_, 40)))
+            elif isinstance(b_, sp.Symbol) and a_.is_number:
+                (hi if isinstance(h, (sp.Ge, sp.Gt)) else lo).setdefault(b_, []).append(mp.mpf(sp.N(a_, 40)))
+    for _ in range(tries):
+        pt = {}
+        for s_ in syms:
+            if s_ in lo or s_ in hi:
+                l0 = max(lo[s_]) if s_ in lo else None
+                h0 = min(hi[s_]) if s_ in hi else None
+                if l0 is not None and h0 is not None and l0 > 0:
+                    v = mp.exp(mp.log(l0) + (mp.log(h0) - mp.log(l0)) * mp.mpf(rnd.random()))
+                elif l0 is not None and h0 is not None:
+                    v = l0 + (h0 - l0) * mp.mpf(rnd.uniform(0.02, 0.98))
+                elif l0 is not None:
+                    v = (l0 if l0 > 0 else mp.mpf(0)) + mp.mpf(rnd.randint(1, 400)) / mp.mpf(rnd.randint(1, 90)) * (max(l0, mp.mpf(1)) if l0 > 0 else 1)
+                else:
+                    v = h0 - mp.mpf(rnd.randint(1, 400)) / mp.mpf(rnd.randint(1, 90))
+                pt[s_] = v
+                continue
+            v = mp.mpf(rnd.randint(1, 400)) / mp.mpf(rnd.randint(1, 90))
+            if rnd.random() < 0.25:
+                v = v * mp.mpf(10) ** rnd.randint(-3, 3)
+            if not s_.is_positive and rnd.random() < 0.3:
+                v = -v
+            if s_.is_integer:
+                v = mp.mpf(rnd.randint(0, 6))
+            pt[s_] = v
+        try:
+            if not all(holds(h, pt, True) is True for h in hy):
+                continue
+            if holds(goal, pt, False) is True:
+                return dict(model={str(k): mp.nstr(v, 20) for k, v in pt.items()})
+        except Exception:
+            continue
+    return None
+
+
+def refute_by_point_rels(diffs, hyps, rels, tries=400, seed=0):
+    """exact rational counter-model for an identity claimed modulo relations (lead**k == rhs): degree-1 relations are substituted, for higher degree
+    the point is re-sampled until rhs is an exact k-th power of a rational (values are drawn from a pool that contains Pythagorean ratios, so that
+    s^2 = 1 - c^2 is hit quickly).  Only polynomial / rational expressions without interpreted functions."""
+    rnd = random.Random(seed)
+    exprs = [sp.sympify(d) for d in diffs]
+    lin = {lead: rhs for lead, k, rhs in rels if k == 1}
+    high = [(lead, k, rhs) for lead, k, rhs in rels if k != 1]
+    for _ in range(4):
+        exprs = [e.xreplace(lin) for e in exprs]
+        high = [(lead, k, sp.sympify(rhs).xreplace(lin)) for lead, k, rhs in high]
+    hy = [h.xreplace(lin) if isinstance(h, sp.Basic) else h for h in hyps]
+    if any(isinstance(a, sp.core.function.AppliedUndef) for e in exprs for a in sp.preorder_traversal(e)):
+        return None
+    syms = set()
+    for e in exprs + [sp.sympify(r_) for _, _, r_ in high] + [h for h in hy if isinstance(h, sp.Basic)]:
+        syms |= e.free_symbols
+    leads = {lead for lead, _, _ in high}
+    syms = sorted(syms - leads, key=str)
+    pool = [sp.Rational(3, 5), sp.Rational(4, 5), sp.Rational(5, 13), sp.Rational(12, 13), sp.Rational(8, 17), sp.Rational(15, 17), sp.Rational(7, 25), sp.Rational(24, 25)]
+    lo, hi = {}, {}
+    for h in hy:
+        if isinstance(h, (sp.Ge, sp.Gt, sp.Le, sp.Lt)):
+            a_, b_ = h.lhs, h.rhs
+            if isinstance(a_, sp.Symbol) and b_.is_number:
+                (lo if isinstance(h, (sp.Ge, sp.Gt)) else hi).setdefault(a_, []).append(sp.nsimplify(b_, rational=True))
+            elif isinstance(b_, sp.Symbol) and a_.is_number:
+                (hi if isinstance(h, (sp.Ge, sp.Gt)) else lo).setdefault(b_, []).append(sp.nsimplify(a_, rational=True))
+    for _ in range(tries):
+        pt = {}
+        for s_ in syms:
+            if s_ in lo or s_ in hi:
+                l0 = max(lo[s_]) if s_ in lo else None
+                h0 = min(hi[s_]) if s_ in hi else None
+                t_ = sp.Rational(rnd.randint(1, 19), 20)
+                if l0 is not None and h0 is not None:
+                    pt[s_] = l0 + (h0 - l0) * t_
+                elif l0 is not None:
+                    pt[s_] = l0 + sp.Rational(rnd.randint(1, 40), rnd.randint(1, 9))
+                else:
+                    pt[s_] = h0 - sp.Rational(rnd.randint(1, 40), rnd.randint(1, 9)) if rnd.random() < 0.5 else h0 * t_ if h0 > 0 else h0 - t_
+                continue
+            pt[s_] = rnd.choice(pool) if rnd.random() < 0.5 else sp.Rational(rnd.randint(1, 40), rnd.randint(1, 9)) * (1 if (s_.is_positive or rnd.random() < 0.7) else -1)
+            if s_.is_integer:
+                pt[s_] = sp.Integer(rnd.randint(2, 6))
+        ok = True
+        for lead, k, rhs in high:
+            try:
+                v = sp.nsimplify(sp.sympify(rhs).xreplace(pt))
+            except Exception:
+                ok = False
+                break
+            if not v.is_Rational or v < 0:
+                ok = False
+                break
+            rt = sp.root(v, k)
+            if not rt.is_Rational:
+                ok = False
+                break
+            pt[lead] = rt
+        if not ok:
+            continue
+        try:
+            good = True
+            for h in hy:
+                if isinstance(h, sp.Basic):
+                    hv = h.xreplace(pt)
+                    if hv is sp.false or hv is False:
+                        good = False
+                        break
+                    if hv is not sp.true and hv is not True:
+                        hv2 = sp.simplify(hv)
+                        if hv2 is not sp.true:
+                            good = False
+                            break
+            if not good:
+                continue
+            for i, d in enumerate(exprs):
+                v = sp.nsimplify(d.xreplace(pt))
+                if v.is_number and v != 0 and v.is_finite:
+                    return dict(model={str(k_): str(v_) for k_, v_ in pt.items()}, value=str(v), index=i)
+        except (ZeroDivisionError, Exception):
+            continue
+    return None
